@@ -14,6 +14,9 @@ import (
 
 var c03Alpha = []string{"put:a", "put:b", "del:a", "del:b", "b1", "cr", "q", "snap", "rel:0", "rel:1", "iter", "iterS", "reliter", "re"}
 
+// transaction iterators are frozen views too: a second alphabet with an open transaction
+var c03AlphaTr = []string{"put:a", "q", "otr", "tput:a", "tput:b", "tdel:a", "twrite", "titer", "reliter", "commit", "discard"}
+
 func seqWorker(hk *seqHooks) func(task []byte) []byte {
 	return func(task []byte) []byte {
 		var t seqTask
@@ -69,6 +72,7 @@ func init() {
 			add := func(cfg string, d int) {
 				specs = append(specs, seqSpec{Cfg: cfg, Alpha: c03Alpha, Depth: d, Checks: "db,views"})
 			}
+			specs = append(specs, seqSpec{Cfg: "bigbatch/bytewise", Alpha: c03AlphaTr, Depth: map[bool]int{true: 6, false: 8}[c.Tier == "quick"], Checks: "db,views", Mode: "tr"})
 			if c.Tier == "quick" {
 				add("flushy/bytewise", 5)
 				add("deep/bytewise", 5)
